@@ -265,7 +265,68 @@ def s19_network(ctx):
     return res
 
 
-STREAMS = [s19_tracevalidate, s19_network]
+
+
+def s19_rewrite(ctx):
+    """A path that is READ, REWRITTEN and read again in one process: the second read / the second tracevalidate must see what the file holds NOW
+    (nothing may be remembered per path)."""
+    import_fractopo()
+    import geopandas as gpd
+    from typer.testing import CliRunner
+
+    from fractopo.cli import APP
+    from fractopo.general import read_geofile, write_geodata
+
+    res = StreamResult("S19-rewrite", rule="histories on ONE path: write A with the package's writer, read it with the package's reader, write B (one row fewer, other attribute values) to the same "
+                       "path, read again = B (rows, geometry, attributes; judged against geopandas' own reader); then tracevalidate on that path writes one row per CURRENT row; "
+                       "non-trivial = every history")
+    rng = rng_for(ctx.seed, "S19rw")
+    tmp = Path(tempfile.mkdtemp(prefix="s19rw_", dir="/var/tmp"))
+    runner = CliRunner()
+    try:
+        for k in range(budget(ctx.tier, 6, 40)):
+            driver = rng.choice(["GeoJSON", "GPKG"])
+            d = tmp / f"h{k}"
+            d.mkdir()
+            tp, ap, names = build_inputs(rng, d, driver, rng.random() < 0.5, f"rw{k}", pool=LINE_GADGETS)
+            case = {"stream": "S19-rewrite", "driver": driver, "gadgets": names, "case_number": k}
+            res.evaluations += 1
+            res.nontrivial += 1
+            res.distribution[driver] = res.distribution.get(driver, 0) + 1
+            try:
+                a = gpd.read_file(tp)
+                first = read_geofile(tp)
+                r0 = runner.invoke(APP, ["tracevalidate", str(tp), str(ap), "--output", str(d / f"out0{EXT[driver]}"), "--no-summary"])
+                b = a.iloc[:-1].copy()
+                b["val"] = [v + 1000.0 for v in b["val"]]
+                tp.unlink()
+                write_geodata(b, tp, driver=driver)
+                now = gpd.read_file(tp)
+                again = read_geofile(tp)
+                problems = []
+                if len(first) != len(a):
+                    problems.append(f"first read: {len(first)} rows, file has {len(a)}")
+                if len(again) != len(now) or [g.wkt for g in again.geometry] != [g.wkt for g in now.geometry] or list(again["val"]) != list(now["val"]):
+                    problems.append(f"read after the rewrite: {len(again)} rows, val {list(again['val'])[:3]}; the file holds {len(now)} rows, val {list(now['val'])[:3]}")
+                op = d / f"out1{EXT[driver]}"
+                r1 = runner.invoke(APP, ["tracevalidate", str(tp), str(ap), "--output", str(op), "--no-summary"])
+                if r0.exit_code != 0 or r1.exit_code != 0 or not op.exists():
+                    problems.append(f"tracevalidate exit codes {r0.exit_code} / {r1.exit_code}: {str(r1.exception)[:100]}")
+                else:
+                    out = gpd.read_file(op)
+                    if len(out) != len(now) or list(out["val"]) != list(now["val"]):
+                        problems.append(f"tracevalidate after the rewrite wrote {len(out)} rows (val {list(out['val'])[:3]}) for a file of {len(now)} rows (val {list(now['val'])[:3]})")
+            except Exception as e:  # noqa: BLE001
+                problems = [f"{type(e).__name__}: {str(e)[:200]}"]
+            if problems:
+                res.disagreements.append(Disagreement("S19-rewrite", case, "what the file holds now", problems, True, "; ".join(problems)[:400]))
+        res.samples = [{"history": "write A, read, tracevalidate, write B to the same path, read, tracevalidate"}]
+    finally:
+        shutil.rmtree(tmp, ignore_errors=True)
+    return res
+
+
+STREAMS = [s19_tracevalidate, s19_network, s19_rewrite]
 
 
 def replay(ctx, stream, case):
